@@ -198,8 +198,8 @@ PLAN['C02'] = {
     'technique': 'contract-based deductive verification (Verus) of the Rust drivers around the emitted machine code - JitBulkEval::eval and JitTracingEval::eval of fidget-jit/src/lib.rs on their real text, raw pointers as ghost-carrying stand-ins, the emitted function as one trusted stand-in with a stated contract; bounded native contract runner (JIT evaluators vs interpreter) for the emitted machine code itself, which is outside verifier reach',
     'level_text': 'Partial. Proved unbounded (unit jit, every slice length n including 0, n < SIMD width and n not a multiple of it, every number of variables and outputs, whatever the evaluator object held before): the many-point driver hands the machine code only pointers that are valid for the count passed with them (scratch rows of MAX_SIMD_WIDTH elements for n < SIMD, the caller\'s slices and the evaluator\'s own output rows otherwise, ptr::add inside its allocation, count a multiple of the SIMD width), and returns one row per output holding exactly one result per input sample, each equal to the compiled function on that sample\'s column - under the stated contract of the machine code (call_bulk: reads and writes exactly `count` elements per pointer). Same for the single-point driver: arrays sized and cleared before the call, a trace returned iff a clause is decided. SIMD_SIZE of both impls within 1..=MAX_SIMD_WIDTH (both architectures). NOT proved: that the emitted bytes implement that contract and agree with the interpreter opcode by opcode - bounded stand-in only: every opcode x operand form x register/stack placement x special-value grid, all slice lengths 0..=4*SIMD+3, 1-3 outputs and seeded deep tapes that force stack spills are compared with the interpreter under the property\'s own equality.',
     'level_note': 'Trusted: Verus+Z3; the stand-ins of unit jit (call_bulk / call_trace = what the machine code is assumed to do; CPtr/MPtr pointer stand-ins with std\'s validity rules; assume_specification for Vec::resize_with and slice::fill). The interpreter is the oracle of the bounded legs (itself proved against the reference opcode meaning in unit vm, C01).',
-    'legs': [leg_verus('jit'), leg_bounded('jit_point'), leg_bounded('jit_bulk')],
-    'cex': ['jit_bulk', 'jit_point'],
+    'legs': [leg_verus('jit'), leg_bounded('jit_point'), leg_bounded('jit_bulk'), leg_bounded('jit_bulk_guard')],
+    'cex': ['jit_bulk_guard', 'jit_bulk', 'jit_point'],
     'explanation': 'Drivers: Verus postconditions of the real functions (units/jit.py). Machine code: enumerated grid + seeded random tapes, see coverage.bounded[*].space for the exact spaces',
     'assumptions': ['aarch64 back end not exercised (x86_64 host); its SIMD_WIDTH is checked against MAX_SIMD_WIDTH',
                     'call_bulk / call_trace: the emitted function touches exactly `count` elements behind each pointer and computes sem(k, column) - exercised natively by jit_bulk / jit_point / jit_trace / reuse, never proved',
